@@ -376,6 +376,9 @@ func CheckStream(k WK, emitted, want []byte) (class, msg string) {
 		return "stdlib-rejects", fmt.Sprintf("compress/%s cannot decode the emitted stream: %v (decoded %d of %d bytes)", kind, err, len(out), len(want))
 	}
 	if !bytes.Equal(out, want) {
+		if k.Dict != nil && len(out) == len(k.Dict)+len(want) && bytes.Equal(out[:len(k.Dict)], k.Dict) && bytes.Equal(out[len(k.Dict):], want) {
+			return "dict-prepended", fmt.Sprintf("compress/%s decodes the stream to dictionary+data (%d+%d bytes): the preset dictionary was emitted as stream content", kind, len(k.Dict), len(want))
+		}
 		return "stdlib-differs", fmt.Sprintf("compress/%s decodes to different data: %s", kind, diffDesc(out, want))
 	}
 	if rest != 0 {
